@@ -172,6 +172,37 @@ def check_interleaved(ctx, ast, text, runs, cls, *, env=None, keys_prefix="~"):
                     continue
                 ctx.violation("interleaved-evaluations-of-one-compiled-query-differ-from-the-model:%s" % cls, case, {"text": text, "order": order, "evaluation": i, "diff": diff, "impl": impl.brief_impl(g), "model": impl.brief(models[i])})
                 return False
+    # the same from threads: every (document, context) pair in a thread of its own, all evaluating the one compiled object
+    # at once, with yields injected at statement starts inside the evaluator
+    if len(runs) >= 2 and rnd.random() < 0.35:
+        from . import threads
+
+        results = [None] * len(runs)
+
+        def worker(wid, _rng):
+            d, e = runs[wid]
+            out = []
+            try:
+                for _rep in range(3):
+                    out.append([(tuple(m.parts), m.obj, m.path) for m in comp.value.finditer(d, **({"filter_context": e} if e is not None else {}))])
+            except Exception as ex:  # noqa: BLE001
+                out.append("%s: %s" % (type(ex).__name__, ex))
+            results[wid] = out
+        st = threads.stress(worker, nthreads=len(runs), files=("selectors.py", "filter.py", "path.py", "env.py", "match.py", "count.py", "length.py", "value.py", "search.py"), seed=rnd.random(), prob=0.15, join_timeout=120)
+        ctx.count("threaded_evaluations_of_one_compiled_query", 3 * len(runs))
+        ctx.count("threaded_evaluations_injected_yields", st["yields"])
+        if st["timed_out"]:
+            ctx.notes.append("threaded evaluation timed out (inconclusive)")
+        else:
+            for i, outs in enumerate(results):
+                for g in outs or []:
+                    diff = g if isinstance(g, str) else impl.nodes_equal(g, models[i])
+                    if diff:
+                        alt = ref.eval_query(ast, runs[i][0], extra=runs[i][1], keys_prefix=keys_prefix, order="bfs")
+                        if not isinstance(g, str) and impl.nodes_equal(g, alt) is None:
+                            continue
+                        ctx.violation("threaded-evaluations-of-one-compiled-query-differ-from-the-model:%s" % cls, case, {"text": text, "evaluation": i, "diff": diff, "impl": g if isinstance(g, str) else impl.brief_impl(g), "model": impl.brief(models[i])})
+                        return False
     # the same through the async API, gathered, over containers whose getters yield
     from checks.c08 import Plan, unwrap, wrap
 
